@@ -383,6 +383,7 @@ def configs(
         rigs=(None,),
         strict=None,
         side_shows=False,
+        inf_stacks=False,
         min_players=2,
         max_players_cap=9,
         profiles=(0, 1, 2, 3, 4, 5),
@@ -489,6 +490,11 @@ def configs(
         cfg['mode_as_str'] = True
     # cards arguments of operations in another of their documented forms
     # (CardsLike: text, list, one-shot iterator, generator)
+    if inf_stacks and chip_t == 'int' and draw(st.integers(0, 2)) == 0:
+        # stacks that are "not mentioned": math.inf (README)
+        k = draw(st.integers(1, n - 1))
+        cfg['inf_stacks'] = sorted(draw(st.lists(
+            st.integers(0, n - 1), min_size=k, max_size=k, unique=True)))
     if side_shows and draw(st.booleans()):
         # explicit-index shows while hands are killed / chips moved by hand
         cfg['side_shows'] = True
